@@ -447,6 +447,32 @@ V({
     "trusted": ["chalk-engine MayInvalidate::aggregate_name_and_substs"],
 })
 
+# -------------------------------------------------------------------------- V15
+V({
+    "id": "V15",
+    "title": "priorities_insert: SpecializationPriorities::{new, insert} — the contract K13 assumes for insert",
+    "template": "v15_priorities_insert.rs",
+    "assumptions": [
+        "V15: indexmap::IndexMap is abstract (finite-map view) with the assumed contracts of new/get/insert and of the entry API (entry, OccupiedEntry::{get, insert}, VacantEntry::insert)",
+        "V15: derive(PartialOrd/PartialEq) on SpecializationPriority(usize) is the order of the wrapped number",
+        "V15: SpecializationPriorities::priority (custom Index sugar `self.map[&id]`) is not extractable; it is `map.get(id).expect(..)`",
+    ],
+    "trusted": ["indexmap::IndexMap (assumed contract)"],
+})
+
+# -------------------------------------------------------------------------- V16
+V({
+    "id": "V16",
+    "title": "default_free_var_folds: default FallibleTypeFolder::try_fold_free_var_{ty,lifetime,const}, TypeFolder::fold_free_var_{ty,lifetime,const}; BoundVar::{new, shifted_in_from, to_ty, to_lifetime, to_const}, DebruijnIndex::{new, depth, shifted_in_from}",
+    "template": "v16_default_free_var_folds.rs",
+    "assumptions": [
+        "V16: `intern` of TyKind / LifetimeData / ConstData are constructors (abstract views); the fold of a constant's type through the generic driver is abstract (folded_ty)",
+        "V16: `&mut dyn FallibleTypeFolder<I, Error = E>` / `&mut dyn TypeFolder<I>` returned by as_dyn are opaque types in the prelude (only passed on)",
+        "V16: precondition: the folder does not forbid free variables and depth + outer_binder fits in u32 (else the real code panics)",
+    ],
+    "trusted": [],
+})
+
 # ===========================================================================
 GLOBAL_ASSUMPTIONS = [
     "soundness of rustc+Kani's model of core/alloc and of CBMC; soundness of Verus and Z3",
